@@ -212,6 +212,7 @@ def explore(run_with, max_exhaustive, n_samples, rng):
 
 
 LAST_FUTURE_STATS = collections.Counter()
+LAST_FRONTIER = []      # labels of the coroutine resolvers suspended at the first quiescent point of the last asyncio run
 
 
 def normalise(result):
@@ -310,6 +311,8 @@ def run_asyncio(chooser, schema, text, kwargs, in_thread, make_binding_async, ea
                 return ("raised", e), trace
             task = asyncio.ensure_future(aw, loop=loop)
             settle(loop)
+            # what is in flight before anything was allowed to complete
+            LAST_FRONTIER[:] = [tuple(l) for l in gates.pending_labels()]
             steps = 0
             while (pool.parked or gates.parked) and not task.done():
                 n = len(pool.parked) + len(gates.parked)
